@@ -34,7 +34,7 @@ IWeq == Seqs01(WCeq) \cup Seqs2(WCeq)
 UI2 == { <<<<"a",1>>>>, <<<<"b",0>>>>, <<<<"a",1>>,<<"b",1>>>>, <<<<"b",1>>,<<"a",0>>>> }
 UI2bad == UI2 \cup { <<<<"a",9>>>>, <<<<"a",1>>,<<"b",9>>>>, <<<<"b",1>>,<<"a",9>>>> }
 UIe == { <<<<"a",1>>>>, <<<<"e",1>>>>, <<<<"a",1>>,<<"e",1>>>>, <<<<"e",1>>,<<"a",0>>>> }
-UIebad == UIe \cup { <<<<"e",1>>,<<"a",9>>>>, <<<<"a",9>>>> }
+UIebad == UIe \cup { <<<<"e",1>>,<<"a",9>>>>, <<<<"a",9>>>>, <<<<"a",9>>,<<"e",1>>>> }   \* a rejected key after / before an Event key
 UIc == { <<<<"a",1>>>>, <<<<"a",1>>,<<"c",9>>>>, <<<<"c",9>>>> }
 UIeq == { <<<<"a",2>>>>, <<<<"a",4>>,<<"b",1>>>>, <<<<"b",1>>,<<"a",5>>>>, <<<<"a",3>>>> }
 TN2 == { <<"a">>, <<"b">>, <<"a","b">> }
